@@ -275,6 +275,8 @@ def wrap(term, kind):
         return VStr(term)
     if kind.startswith("ref:"):
         return VRef(term, kind[4:])
+    if kind == "real":
+        return VReal(0, term)       # containers hold finite reals
     raise ValueError(kind)
 
 
@@ -301,6 +303,11 @@ def unwrap(v, kind):
             return v.t
         if isinstance(v, VNone):
             return NULL
+    elif kind == "real":
+        if isinstance(v, VReal):
+            return v.v
+        if isinstance(v, VInt):
+            return z3.ToReal(v.t)
     raise Unsupported(f"cannot store {v!r} as {kind}")
 
 
